@@ -30,6 +30,7 @@ func (in *inliner) normalizeCallShapes(pkgs []*packages.Package, excluded func(s
 			eachList(f, n.goOfNew)
 			eachList(f, n.forCondToIf)
 			eachList(f, n.switchToIf)
+			eachList(f, n.switchTagCall)
 			eachList(f, n.splitShortCircuit)
 			eachList(f, n.hoistFirstCall)
 		}
@@ -474,4 +475,37 @@ func (n *normCtx) forCondToIf(s ast.Stmt) []ast.Stmt {
 	n.in.dirty[n.file] = true
 	n.in.res.Normalized = append(n.in.res.Normalized, fmt.Sprintf("loop condition at %s written as a test at the top of the body", n.in.fset.Position(pos)))
 	return keep
+}
+
+// switchTagCall: `switch f(a) { .. }` with f new relative to the pinned tree
+// becomes `t := f(a); switch t { .. }` (the tag is evaluated once, first, in
+// both spellings), so that the call stands where the inliner handles it. A
+// switch with an init statement is wrapped in a block that runs the init
+// statement first.
+func (n *normCtx) switchTagCall(s ast.Stmt) []ast.Stmt {
+	keep := []ast.Stmt{s}
+	sw, ok := s.(*ast.SwitchStmt)
+	if !ok || sw.Tag == nil || sw.Init != nil {
+		return keep
+	}
+	call, ok := sw.Tag.(*ast.CallExpr)
+	if !ok || !n.isNewCallee(call) {
+		return keep
+	}
+	t := n.pkg.TypesInfo.TypeOf(call)
+	if t == nil {
+		return keep
+	}
+	if _, isTuple := t.(*types.Tuple); isTuple {
+		return keep
+	}
+	id, _ := n.newVar(call.Pos(), "inlW", t)
+	def := &ast.AssignStmt{Lhs: []ast.Expr{id}, TokPos: call.Pos(), Tok: token.DEFINE, Rhs: []ast.Expr{call}}
+	use := &ast.Ident{NamePos: call.Pos(), Name: id.Name}
+	n.pkg.TypesInfo.Uses[use] = n.pkg.TypesInfo.Defs[id]
+	sw.Tag = use
+	n.in.dirty[n.file] = true
+	n.in.res.Normalized = append(n.in.res.Normalized, fmt.Sprintf("switch tag computed by a new function put into a variable at %s", n.in.fset.Position(call.Pos())))
+	// (a block keeps the variable out of the surrounding scope)
+	return []ast.Stmt{&ast.BlockStmt{Lbrace: s.Pos(), List: []ast.Stmt{def, sw}, Rbrace: s.End()}}
 }
